@@ -40,7 +40,7 @@ STORAGE = {
     "E16b": (E16b, (4, 12)),
     "F16b": (F16b, (4, 12)),
 }
-CONTEXTS = ("none", "u8-before", "u32-after", "u8-between", "dyn-before", "struct-before", "struct-after", "dyn-between", "void-between", "zero-array-between")
+CONTEXTS = ("none", "u8-before", "u32-after", "u8-between", "dyn-before", "struct-before", "struct-after", "dyn-between", "void-between", "zero-array-between", "dyn-adjacent")
 
 
 def sequences(tier):
@@ -69,7 +69,7 @@ def sequences(tier):
 
 def jobs(tier):
     seqs = list(sequences(tier))
-    ctxs = CONTEXTS if tier == "thorough" else ("none", "u8-before", "u32-after", "dyn-between", "struct-after", "void-between")
+    ctxs = CONTEXTS if tier == "thorough" else ("none", "u8-before", "u32-after", "dyn-between", "struct-after", "void-between", "dyn-adjacent")
     sp = [s_ for s_ in seqs if len(s_) <= 2 and all(w in (1, 3, 4, 5, 12, 31) for _, w in s_)]
     return [(tier, c, ctxs) for c in defs.chunks(seqs, 12 if tier == "quick" else 30)] + [("spellings", c, ("none", "u32-after", "dyn-between")) for c in defs.chunks(sp, 40)]
 
@@ -91,6 +91,9 @@ def build(seq, context):
         fs = bits[:1] + [TField("vd", VOID)] + bits[1:] + [TField("t", INTS["uint8"])] if len(bits) > 1 else bits + [TField("vd", VOID), TField("t", INTS["uint8"])]
     elif context == "zero-array-between":
         fs = bits[:1] + [TField("z", TArr(INTS["uint16"], 0))] + bits[1:] + [TField("t", INTS["uint8"])] if len(bits) > 1 else bits + [TField("z", TArr(INTS["uint16"], 0)), TField("t", INTS["uint8"])]
+    elif context == "dyn-adjacent":
+        # the dynamically sized member directly follows a partly used unit (its count was read before the unit)
+        fs = [TField("n0", INTS["uint8"])] + bits[:1] + [TField("d", TArr(CHAR, "n0"))] + bits[1:] + [TField("t", INTS["uint8"])]
     elif context == "dyn-before":
         fs = dyn + bits + [TField("t", INTS["uint16"])]
     elif context == "dyn-between":
@@ -324,7 +327,7 @@ def run(job) -> JobResult:
         return res
     for seq in chunk:
         for context in ctxs:
-            if context in ("u8-between", "dyn-between", "void-between", "zero-array-between") and len(seq) < 2:
+            if context in ("u8-between", "dyn-between", "void-between", "zero-array-between", "dyn-adjacent") and len(seq) < 2:
                 continue
             for endian in "<>":
                 for align in (False, True):
